@@ -33,12 +33,20 @@ def exc_factory(name):
         'OSError': lambda: OSError('injected'),
         'UnicodeDecodeError': lambda: UnicodeDecodeError('utf-8', b'\xff', 0, 1, 'injected'),
         'MemoryError': lambda: MemoryError('injected'),
+        # exceptions from the library's own hierarchy raised by a *step* are failures of that step like any other
+        'DataflowsException': lambda: UserDataflowsError('injected'),
+        'SourceLoadError': lambda: core.dataflows.base.exceptions.SourceLoadError('injected'),
     }[name]()
 
 
-QUICK_CLASSES = ['Private', 'CastError', 'CastErrorBare', 'StopIteration', 'UniqueKeyError', 'UnicodeDecodeError']
+class UserDataflowsError(core.dataflows.base.exceptions.DataflowsException):
+    pass
+
+
+QUICK_CLASSES = ['Private', 'CastError', 'CastErrorBare', 'StopIteration', 'UniqueKeyError', 'UnicodeDecodeError', 'DataflowsException']
 ALL_CLASSES = ['Private', 'ValueError', 'KeyError', 'AssertionError', 'StopIteration', 'CastError', 'CastErrorBare',
-               'TSValidationError', 'UniqueKeyError', 'DFValidationError', 'OSError', 'UnicodeDecodeError', 'MemoryError']
+               'TSValidationError', 'UniqueKeyError', 'DFValidationError', 'OSError', 'UnicodeDecodeError', 'MemoryError',
+               'DataflowsException', 'SourceLoadError']
 
 
 # ---- injection ------------------------------------------------------------------------------
@@ -414,14 +422,31 @@ def check_batch(batch):
 
 def source_cast_cases():
     """The source's own CastError (uncastable cell in a loaded data package)."""
-    return [{'entry': e, 'tail': t} for e in ('process', 'results') for t in (False, True)]
+    out = [{'entry': e, 'tail': t} for e in ('process', 'results') for t in (False, True)]
+    # a JSON / ndjson file holding an item that is not a row, inside and beyond the inference sample
+    for kind in ('json', 'ndjson'):
+        for at in (1, 150):
+            for e in ('process', 'results'):
+                out.append({'entry': e, 'tail': True, 'badfile': kind, 'at': at})
+    return out
 
 
 def run_source_cast(case):
     with core.scratch_dir() as d:
         env = Env(d)
         env.pos = 0
-        links = [core.build({'op': 'c04_load_dp_bad'}, env)]
+        if case.get('badfile'):
+            p = os.path.join(d, 'items.' + case['badfile'])
+            items = [{'a': i, 'b': 't%d' % i} for i in range(200)]
+            items[case['at']] = 12345          # a scalar where a row object belongs
+            with open(p, 'w') as f:
+                if case['badfile'] == 'json':
+                    json.dump(items, f)
+                else:
+                    f.write('\n'.join(json.dumps(x) for x in items) + '\n')
+            links = [core.dataflows.load(p, name='r1')]
+        else:
+            links = [core.build({'op': 'c04_load_dp_bad'}, env)]
         env.pos = 1
         if case['tail']:
             links.append(core.dataflows.dump_to_path(env.path('dump')))
@@ -433,6 +458,8 @@ def run_source_cast(case):
         dumped = case['tail'] and os.path.exists(os.path.join(env.path('dump'), 'datapackage.json'))
     viol = []
     label = 'load(datapackage.json with an uncastable cell)%s, %s()' % (' + dump_to_path' if case['tail'] else '', case['entry'])
+    if case.get('badfile'):
+        label = 'load(%s file whose item #%d is a number, not a row) + dump_to_path, %s()' % (case['badfile'], case['at'], case['entry'])
     if res[0] == 'ok':
         viol.append(('returned-normally/source-cast-error', '%s: returned normally (rows after the bad cell are missing)' % label, case))
     elif not isinstance(res[1], core.dataflows.base.exceptions.ProcessorError):
